@@ -22,7 +22,7 @@ ObsOK(ev, pl) ==
     /\ \A i \in DOMAIN ev.ggets : RVals(ev.ggets[i].r) = GetGdsProperty(pl, ev.ggets[i].a)
 
 Mark(okk, why) == IF okk \/ bad THEN bad' = bad
-                  ELSE /\ PrintT(<<"REJECT", l, why>>) /\ bad' = TRUE
+                  ELSE /\ PrintT("REJECT " \o ToString(l) \o " " \o ToString(why)) /\ bad' = TRUE
 
 TInit == Init /\ l = 1 /\ bad = FALSE
 TReset == Ev.e = "Reset" /\ plist' = <<>> /\ res' = "none" /\ hist' = <<>> /\ bad' = FALSE
@@ -35,7 +35,7 @@ TRemoveGds == /\ Ev.e = "removegds" /\ ARemoveGds(Ev.v.x)
 TCopy == Ev.e = "copy" /\ ACopy /\ Mark(ObsOK(Ev, plist'), "copy")
 TClear == Ev.e = "clear" /\ AClear /\ Mark(ObsOK(Ev, plist'), "clear")
 TOther == /\ Ev.e \notin {"Reset", "set", "setgds", "remove", "removegds", "copy", "clear"}
-          /\ PrintT(<<"REJECT", l, Ev.e>>) /\ bad' = TRUE /\ UNCHANGED vars
+          /\ PrintT("REJECT " \o ToString(l) \o " " \o ToString(Ev.e)) /\ bad' = TRUE /\ UNCHANGED vars
 
 TNext == /\ l <= Len(Log) /\ l' = l + 1
          /\ (TReset \/ TSet \/ TSetGds \/ TRemove \/ TRemoveGds \/ TCopy \/ TClear \/ TOther)
